@@ -27,7 +27,7 @@ CHECKS = {
                       'durations on a 1/1024 s grid (ties are frequent by construction). Failures tied at one simulated '
                       'instant are not ordered by the "first exception" oracle; after an outer cancellation only the bound '
                       'and liveness are asserted (docstrings are silent).',
-        'scenarios': [{'module': 'worlds.prims.gather', 'quick': 50000, 'thorough': 1200000}],
+        'scenarios': [{'module': 'worlds.prims.gather', 'quick': 50000, 'thorough': 350000}],
         'expected_probes': ['bound_saturated', 'failure_while_others_running', 'cancel_on_error_cancelled_running',
                             'outer_cancel', 'pool_shutdown', 'individual_cancel_running', 'nested_call',
                             'simultaneous_failures', 'sema_reused_after_error', 'thunk_cleanup_after_cancel',
@@ -59,7 +59,7 @@ CHECKS = {
                       'exercised; sync_retry_transient_errors runs with time.sleep replaced by a recorder; '
                       'gear.database.retry_transient_mysql_errors is not covered by this scenario. Back-off is checked '
                       'to 2 us.',
-        'scenarios': [{'module': 'worlds.prims.retry', 'quick': 40000, 'thorough': 2500000}],
+        'scenarios': [{'module': 'worlds.prims.retry', 'quick': 40000, 'thorough': 300000}],
         'expected_probes': ['limited_sixth_failure_raised', 'limited_within_five_retried', 'chained_cause_transient',
                             'delay_capped', 'delay_pinned_to_max', 'rate_limit_retried', 'permanent_after_retries',
                             'permanent_raised_first_try', 'success_after_retries', 'long_sequence',
